@@ -383,6 +383,11 @@ class Producer(object):
             reqsByTopicPart[topicPart].append(req)
             deferredsByTopicPart[topicPart].append(req.deferred)
 
+        if self.stopping:
+            # stop() was called from one of the errbacks run just above: it has
+            # cancelled every request, and nothing may be transmitted any more.
+            return
+
         # Build list of payloads grouped by topic/partition
         # That is, we bundle all the messages destined for a given
         # topic/partition, even if they were submitted by different
@@ -593,6 +598,11 @@ class Producer(object):
             Params:
             failed_payloads - list of (payload, failure) tuples
             """
+            if self.stopping:
+                # stop() was called from a result callback run just above: it has
+                # cancelled everything outstanding, and nothing may be sent again.
+                _deliver_result(deferredsByTopicPart.values(), Failure(tid_CancelledError()))
+                return
             # Do we have retries left?
             if self._req_attempts >= self._max_attempts:
                 # No, no retries left, fail each failed_payload with its
